@@ -75,6 +75,7 @@ def cover5():
         r.append(tuple(TYPES[(i + s) % 6] for i in range(5)))
         r.append(tuple(TYPES[(2 * i + s) % 6] for i in range(5)))
     r += [('C_3',) * 5, ('C_R',) * 5, ('C_R', 'C_R', 'C_3', 'C_3', 'O_3'), ('O_3', 'O_3', 'C_R', 'C_3', 'C_R')]
+    r += list(itertools.product(['H_', 'C_3', 'O_3'], repeat=5))        # every assignment of a 3-type alphabet: equal ends with different centres in both listing directions
     return r
 
 
@@ -93,7 +94,7 @@ def plan(tier, seed):
         scs.append(dict(kind='typing', n=5, g=gi, t0=None))
     return dict(scenarios=scs, exhaustive=True, chunk=2,
                 menus=dict(graphs={n: len(graphs(n)) for n in range(2, nmax + 1)}, presentations=['canonical', 'all reversed', 'every single-edge reversal', 'list reversed', 'list rotated', 'duplicate bond (either direction)'],
-                           type_alphabet=TYPES, assignments='all 6^n for n<=4; %d covering assignments for n=5' % len(cover5()), exclusion='every subset of atoms for n<=4; {none, first 4 atoms, all} for n=5',
+                           type_alphabet=TYPES, assignments='all 6^n for n<=4; for n=5 all 3^5 assignments of {H_, C_3, O_3} + %d covering assignments of the 6-type alphabet' % (len(cover5()) - 243), exclusion='every subset of atoms for n<=4; {none, first 4 atoms, all} for n=5',
                            term_list=['as enumerated', 'reversed list + reversed tuples', 'rotated list'], renamings='every permutation for n<=3, reversal and rotation for n>=4'),
                 bounds=dict(max_nodes_enumeration=nmax, max_nodes_typing=5),
                 rule='enumeration: one case per (graph, presentation); typing: one case per (graph, assignment, exclusion set, presentation/renaming); non-trivial = the graph has at least one dihedral',
@@ -259,6 +260,8 @@ def run(sc, ctx):
         excl = [None] + [list(s) for r in range(1, n + 1) for s in itertools.combinations(range(n), r)]
     else:
         assigns = cover5(); excl = [None, [0, 1, 2, 3], [0, 1, 2, 3, 4]]
+        if not thorough and len(edges) != 4:
+            assigns = assigns[:-243]          # quick tier: the 3-type block only on the 125 labelled trees
     ident = list(range(n))
     if n <= 3:
         perms = [list(p) for p in itertools.permutations(range(n))]
@@ -266,6 +269,8 @@ def run(sc, ctx):
         perms = [ident, ident[::-1], ident[1:] + ident[:1]] + ([[1, 0] + ident[2:], [ident[-1]] + ident[:-1]] if thorough else [])
     for types in assigns:
         cases = [(ex, 0, ident) for ex in excl] + [(None, p, ident) for p in (1, 2)] + [(None, 0, pm) for pm in perms[1:]] + ([(excl[-1], 1, perms[1])] if len(excl) > 1 else [])
+        if n == 5 and set(types) <= {'H_', 'C_3', 'O_3'} and types not in cover5()[:-243]:
+            cases = [(None, 0, ident), (None, 1, ident)]
         for ex, pres, perm in cases:
             bad = run_typing(n, edges, types, ex, pres, perm, sc, out)
             out['states'] += 1
